@@ -56,7 +56,7 @@ Fresh(fam, rule, order, d, outs, P, T, ll, alpha, beta) ==
     [fam |-> fam, rule |-> rule, order |-> order, dims |-> d, outs |-> outs,
      pts |-> IF outs = 0 THEN P ELSE {}, need |-> IF outs = 0 THEN {} ELSE P,
      ep |-> IF outs = 0 THEN ConstFn(P, -2) ELSE << >>,
-     tens |-> T, upd |-> {}, lim |-> ll, con |-> FALSE, init |-> {}, park |-> << >>, parkT |-> {}, initT |-> {}, obase |-> 0, orph |-> FALSE,
+     tens |-> T, upd |-> {}, lim |-> ll, con |-> FALSE, init |-> {}, park |-> << >>, parkT |-> {}, initT |-> {}, obase |-> 0, orph |-> FALSE, rem |-> FALSE,
      ta |-> <<>>, tb |-> <<>>, conf |-> <<>>, alpha |-> alpha, beta |-> beta]
 
 \* a: [fam, dims, outs, depth, type, rule, aw, ll, order, alpha, beta]
@@ -76,6 +76,7 @@ Make(g, a) ==
 Decidable(type, aw) ==
     /\ ~(type \in HyperbolicTypes /\ aw # <<>> /\ \E j \in 1..Len(aw) : aw[j] # aw[1])
     /\ ~(type \in CurvedTypes /\ aw # <<>> /\ \E j \in 1..(Len(aw) \div 2) : aw[j] + aw[j + Len(aw) \div 2] < 0)
+    /\ ~(type \in CurvedTypes /\ aw # <<>> /\ \E j \in 1..Len(aw) : aw[j] > 60000 \/ aw[j] < -60000)   \* beyond the exact integer arithmetic of Selection.tla
 
 CommitTensors(g) == IF UsesTensors(g) /\ g.upd # {} THEN [g EXCEPT !.tens = g.upd, !.upd = {}] ELSE g
 
@@ -228,6 +229,29 @@ SurpLocal(g, a) ==
             ELSE IF g.fam = "sequence" THEN (IF a.degenerate THEN [g |-> g1, r |-> "ok-observed"] ELSE Ok(SurpSequence(g1, Flagged(a))))
             ELSE IF g.fam = "global" /\ g.rule \in SeqRules THEN [g |-> g1, r |-> "ok-observed"]
             ELSE Run(g1)
+
+-----------------------------------------------------------------------------
+(* direct manipulation of coefficients and points *)
+\* setHierarchicalCoefficients (vector overload, right size): without loaded points the needed points become the
+\* points, otherwise a pending refinement is dropped; the coefficients are stored and the values are inferred
+\* (epoch -2: not token values) -- for Global grids the coefficients are the values.
+SetCoef(g, epoch) ==
+    LET base == IF g.pts = {} THEN Load(g, epoch).g ELSE ClearRef(g).g
+    IN Ok([base EXCEPT !.ep = ConstFn(base.pts, IF g.fam = "global" THEN epoch ELSE -2)])
+
+\* removePointsByHierarchicalCoefficient(tolerance): local polynomial grids only; a pending refinement is dropped,
+\* the points whose normalised coefficient does not exceed the tolerance are removed with their values, the others
+\* keep theirs; nothing left: the object becomes empty.  The hierarchy need not be intact afterwards (rem).
+\* a: [tolq, ratios (aligned with `before`), before (the loaded points as logged before the call)]
+KeptByTolerance(a) == {a.before[i] : i \in {m \in 1..Len(a.before) : a.ratios[m] > a.tolq}}
+RemoveTo(g, K) ==
+    LET c == ClearRef(g).g
+    IN IF K = c.pts THEN Ok(c)
+       ELSE IF K = {} THEN Ok(Empty)
+       ELSE Ok([c EXCEPT !.pts = K, !.ep = Restrict(c.ep, K), !.rem = TRUE])
+Remove(g, a) ==
+    IF IsEmpty(g) \/ g.fam # "localp" THEN Run(g)
+    ELSE RemoveTo(g, KeptByTolerance(a))
 
 -----------------------------------------------------------------------------
 (* dynamic construction *)
